@@ -19,6 +19,53 @@ func resolveAxis(axis int, dims int) int {
 	return res
 }
 
+// rowMajorBlock reports whether the storage of t is one contiguous block holding its elements in row-major order.
+// The strides decide, not the data order flag: handleFuncOpts overwrites the flag of a reuse tensor.
+func rowMajorBlock(t DenseTensor) bool {
+	if t.RequiresIterator() {
+		return false
+	}
+	shp, strides := t.Shape(), t.Strides()
+	if len(strides) != len(shp) {
+		return !t.DataOrder().IsColMajor()
+	}
+	acc := 1
+	for i := len(shp) - 1; i >= 0; i-- {
+		if strides[i] != acc && shp[i] != 1 {
+			return false
+		}
+		acc *= shp[i]
+	}
+	return true
+}
+
+// softmaxOperand returns x itself if it is a rowMajorBlock, and such a copy of it otherwise:
+// the softmax kernels address storage by row-major arithmetic on the shape.
+func softmaxOperand(x Tensor) Tensor {
+	d, ok := x.(DenseTensor)
+	if !ok || d.Size() == 0 || rowMajorBlock(d) {
+		return x
+	}
+	retVal := recycledDense(d.Dtype(), d.Shape().Clone(), WithEngine(d.Engine()))
+	if _, err := copyDenseIter(retVal, d, nil, nil); err != nil {
+		return x
+	}
+	return retVal
+}
+
+// softmaxDest returns reuse itself if the kernels can write it directly, and otherwise a scratch tensor for them to fill
+// together with the step that moves the scratch into reuse element by element.
+func softmaxDest(reuse DenseTensor) (DenseTensor, func() error) {
+	if reuse == nil || reuse.Size() == 0 || rowMajorBlock(reuse) {
+		return reuse, func() error { return nil }
+	}
+	scratch := recycledDense(reuse.Dtype(), reuse.Shape().Clone(), WithEngine(reuse.Engine()))
+	return scratch, func() error {
+		_, err := copyDenseIter(reuse, scratch, nil, nil)
+		return err
+	}
+}
+
 // SoftMax performs the softmax operation on the given tensor. Currently it expects the tensor to be a Dense tensor.
 // Please make a pull request to support sparse tensors.
 //
@@ -38,24 +85,27 @@ func (e StdEng) SoftMax(x Tensor, axis int, opts ...FuncOpt) (retVal Tensor, err
 		reuse = New(WithShape(expectedShape...), Of(x.Dtype()))
 	}
 
+	x = softmaxOperand(x)
+	dest, finish := softmaxDest(reuse)
+
 	switch x.Dtype() {
 	case Float32:
 		if expectedShape.Dims()-1 == axis {
-			e.softMaxLastDimF32(reuse, x, axis, false)
+			e.softMaxLastDimF32(dest, x, axis, false)
 		} else {
-			e.softMaxInnerDimF32(reuse, x, axis, false)
+			e.softMaxInnerDimF32(dest, x, axis, false)
 		}
 	case Float64:
 		if expectedShape.Dims()-1 == axis {
-			e.softMaxLastDimF64(reuse, x, axis, false)
+			e.softMaxLastDimF64(dest, x, axis, false)
 		} else {
-			e.softMaxInnerDimF64(reuse, x, axis, false)
+			e.softMaxInnerDimF64(dest, x, axis, false)
 		}
 	default:
 		return nil, fmt.Errorf("type %v not supported", x.Dtype())
 	}
 
-	return reuse, nil
+	return reuse, finish()
 }
 
 // SoftMaxB computes gradient of the input `x`, given the `output = SoftMax(x)` and its associated gradient. Currently it expects the tensor to be a Dense tensor.
@@ -82,24 +132,27 @@ func (e StdEng) SoftMaxB(output, grad Tensor, axis int, opts ...FuncOpt) (retVal
 		reuse = New(WithShape(expectedShape...), Of(output.Dtype()))
 	}
 
+	output, grad = softmaxOperand(output), softmaxOperand(grad)
+	dest, finish := softmaxDest(reuse)
+
 	switch output.Dtype() {
 	case Float32:
 		if expectedShape.Dims()-1 == axis {
-			e.softMaxBLastDimF32(reuse, output, grad, axis, false)
+			e.softMaxBLastDimF32(dest, output, grad, axis, false)
 		} else {
-			e.softMaxBInnerDimF32(reuse, output, grad, axis, false)
+			e.softMaxBInnerDimF32(dest, output, grad, axis, false)
 		}
 	case Float64:
 		if expectedShape.Dims()-1 == axis {
-			e.softMaxBLastDimF64(reuse, output, grad, axis, false)
+			e.softMaxBLastDimF64(dest, output, grad, axis, false)
 		} else {
-			e.softMaxBInnerDimF64(reuse, output, grad, axis, false)
+			e.softMaxBInnerDimF64(dest, output, grad, axis, false)
 		}
 	default:
 		return nil, fmt.Errorf("type %v not supported", output.Dtype())
 	}
 
-	return reuse, nil
+	return reuse, finish()
 }
 
 // LogSoftMax performs softmax but in log space. This provides some amount of numerical stabilization.
@@ -120,24 +173,27 @@ func (e StdEng) LogSoftMax(x Tensor, axis int, opts ...FuncOpt) (retVal Tensor, 
 		reuse = New(WithShape(expectedShape...), Of(x.Dtype()))
 	}
 
+	x = softmaxOperand(x)
+	dest, finish := softmaxDest(reuse)
+
 	switch x.Dtype() {
 	case Float32:
 		if expectedShape.Dims()-1 == axis {
-			e.softMaxLastDimF32(reuse, x, axis, true)
+			e.softMaxLastDimF32(dest, x, axis, true)
 		} else {
-			e.softMaxInnerDimF32(reuse, x, axis, true)
+			e.softMaxInnerDimF32(dest, x, axis, true)
 		}
 	case Float64:
 		if expectedShape.Dims()-1 == axis {
-			e.softMaxLastDimF64(reuse, x, axis, true)
+			e.softMaxLastDimF64(dest, x, axis, true)
 		} else {
-			e.softMaxInnerDimF64(reuse, x, axis, true)
+			e.softMaxInnerDimF64(dest, x, axis, true)
 		}
 	default:
 		return nil, fmt.Errorf("type %v not supported", x.Dtype())
 	}
 
-	return reuse, nil
+	return reuse, finish()
 }
 
 // LogSoftMaxB computes the gradient of the input `x`, given the `output = LogSoftmax(x)` and its associated gradient.
@@ -165,24 +221,27 @@ func (e StdEng) LogSoftMaxB(output, grad Tensor, axis int, opts ...FuncOpt) (ret
 		reuse = New(WithShape(expectedShape...), Of(output.Dtype()))
 	}
 
+	output, grad = softmaxOperand(output), softmaxOperand(grad)
+	dest, finish := softmaxDest(reuse)
+
 	switch output.Dtype() {
 	case Float32:
 		if expectedShape.Dims()-1 == axis {
-			e.softMaxBLastDimF32(reuse, output, grad, axis, true)
+			e.softMaxBLastDimF32(dest, output, grad, axis, true)
 		} else {
-			e.softMaxBInnerDimF32(reuse, output, grad, axis, true)
+			e.softMaxBInnerDimF32(dest, output, grad, axis, true)
 		}
 	case Float64:
 		if expectedShape.Dims()-1 == axis {
-			e.softMaxBLastDimF64(reuse, output, grad, axis, true)
+			e.softMaxBLastDimF64(dest, output, grad, axis, true)
 		} else {
-			e.softMaxBInnerDimF64(reuse, output, grad, axis, true)
+			e.softMaxBInnerDimF64(dest, output, grad, axis, true)
 		}
 	default:
 		return nil, fmt.Errorf("type %v not supported", output.Dtype())
 	}
 
-	return reuse, nil
+	return reuse, finish()
 }
 
 func (e StdEng) softMaxLastDimF64(output Tensor, x Tensor, axis int, logSoftMax bool) {
